@@ -135,6 +135,10 @@ theorem chanRead_timed (q : Prop) (mrw n : Nat) (t : Option Nat) (s : _root_.St)
     slice every timed read would raise `TimeoutError` at once and an untimed one would spin -/
 theorem minReadWait_pos : 0 < Params.subioMinReadWait := by decide
 
+/-- `read()` takes its slice from the module attribute `MIN_READ_WAIT` — the correspondence harness
+    sets that attribute per case (to values on the tick grid) and relies on it being honoured -/
+theorem slice_is_module_attr : Params.subioSliceIsModuleAttr = true := by decide
+
 /-- the refinement at the slice length of the tree -/
 theorem subprocess_refines_scripted (n : Nat) (t : Option Nat) (s : _root_.St) :
     chanRead Params.subioMinReadWait n t s = Chan.ioRead n t s :=
